@@ -49,13 +49,62 @@ def check_node_base(ctx, P):
                 site=f.loc, construct="hazard member not first")
 
 
+def slot_read_pred(sc):
+    """predicate: an rvalue read of a hazard slot -- `rec->hazard_pointers[i]`, or `*p` where p walks the record's hazard_pointers array"""
+    fl = lambda n: n.k == "MemberExpr" and n.field == "hazard_pointers"      # array member: decays, is not "loaded"
+
+    def p(n):
+        if not (n.k == "ImplicitCastExpr" and n.ck == "LValueToRValue"):
+            return False
+        m = strip(n)
+        if m is None:
+            return False
+        if m.k == "ArraySubscriptExpr":
+            return key_mentions(sc.key(m.kids[0], True), lambda x: x[0] == "f" and x[1] == R and x[2] == "hazard_pointers")
+        if m.k == "UnaryOperator" and m.op == "*":
+            return may_flow_from(sc, m.kids[0], fl)
+        return False
+    return p
+
+
+def through_struct(P, f, n, depth=4):
+    """`s.fld` / `p->fld` where s is a local struct initialised once by an initialiser list (and p holds &s): the expression that
+    initialises that field; anything else is returned unchanged.  (A scan split into phases passes its snapshot as a small struct.)"""
+    for _ in range(depth):
+        m = strip(n)
+        if m is None or m.k != "MemberExpr":
+            return n
+        base = f.resolve(m.kids[0]) if m.kids else None
+        if base is not None and base.k == "UnaryOperator" and base.op == "&":
+            base = strip(base.kids[0])
+        if base is None or base.k != "DeclRefExpr" or base.dk != "local":
+            return n
+        evs = f.defs().get(base.did, [])
+        inits = [e for e in evs if e[0] == "init"]
+        if len(inits) != 1 or any(e[0] in ("assign", "mod") for e in evs) or inits[0][2] is None:
+            return n
+        il = inits[0][2]
+        while il is not None and il.k != "InitListExpr" and il.kids:
+            il = il.kids[0]
+        if il is None or il.k != "InitListExpr":
+            return n
+        try:
+            names = [fl["name"] for fl in P.record(m.rec)["fields"]]
+        except AnalysisBroken:
+            return n
+        if m.field not in names or names.index(m.field) >= len(il.kids):
+            return n
+        n = il.kids[names.index(m.field)]
+    return n
+
+
 def key_field(f, target):
     """name of the record field a MemberExpr / store target designates (None for anything else)"""
     t = strip(target)
     if t is None or t.k != "MemberExpr":
         return None
     k = f.key(t, resolve=False)
-    return k[2] if k and k[0] == "f" else None
+    return (k[1], k[2]) if k and k[0] == "f" else None
 
 
 def run(ctx):
@@ -99,6 +148,7 @@ def run(ctx):
     o = ctx.ob("scan.cover", sc, "the collection walks every record (from *hptr->head along next to NULL) and every slot of it (0 <= i < that record's "
                "hazard_pointers_count), copying each non-NULL slot into plist", "a record or slot that is skipped is a hazard the scan does not see: its node is freed under the reader")
     bad = None
+    isslot_cover = slot_read_pred(sc)
     # the record cursor: the local that is advanced by `x = x->next` over thread records
     cur = []
     for did, evs in sc.defs().items():
@@ -111,8 +161,9 @@ def run(ctx):
         bad = "cur_record not found"
     else:
         defs = [e for e in sc.defs().get(cur[0], []) if e[0] in ("init", "assign")]
-        inits = [e for e in defs if e[0] == "init"]
-        steps = [e for e in defs if e[0] == "assign"]
+        stepkey = ("f", R, "next", ("*", ("var", sc.local_by_did[cur[0]]["name"], cur[0])))
+        inits = [e for e in defs if e[0] == "init" or (e[0] == "assign" and sc.key(e[2]) != stepkey)]
+        steps = [e for e in defs if e[0] == "assign" and sc.key(e[2]) == stepkey]
         hk = deatomic(sc.key(inits[0][2], resolve=True)) if inits else ("?",)
         if not (hk[0] == "*" and key_mentions(hk, lambda x: x[0] == "f" and x[1] == R and x[2] == "head")):
             bad = "the walk starts at `%s`, not at the current head of the record list" % (inits[0][2].text if inits else "?")
@@ -125,9 +176,28 @@ def run(ctx):
             for k in n.kids[:-1]:
                 if k is not None and k.k == "BinaryOperator" and k.op in ("<", "<=", "!="):
                     cond = k
+        ptr_form = False
+        if cond is not None and cond.op in ("!=", "<"):
+            pv = strip(cond.kids[0])
+            if pv is not None and pv.k == "DeclRefExpr" and "*" in (pv.t or ""):
+                # `for (slot = rec->hazard_pointers; slot != slot + rec->hazard_pointers_count; ++slot)`: pointer cursor over the same range
+                curp = lambda x: x[0] == "f" and x[1] == R and x[3] == ("*", ("var", sc.local_by_did[cur[0]]["name"], cur[0]))
+                fl_arr = lambda n: n.k == "MemberExpr" and n.field == "hazard_pointers" and key_mentions(sc.key(n, True), curp)
+                fl_cnt = lambda n: field_load("hazard_pointers_count", R)(n) and key_mentions(sc.key(strip(n), True), curp)
+                pdefs = sc.defs().get(pv.did, [])
+                starts = [e for e in pdefs if e[0] in ("init", "assign")]
+                mods = [e for e in pdefs if e[0] == "mod"]
+                ok_start = bool(starts) and all(e[2] is not None and strip(e[2]) is not None and may_flow_from(sc, e[2], fl_arr) and
+                                                 not any(m.k == "BinaryOperator" and m.op in ("+", "-") for m in e[2].walk()) for e in starts)
+                ok_step = len(mods) == 1 and mods[0][1].k == "UnaryOperator" and mods[0][1].op == "++"
+                ok_end = may_flow_from(sc, cond.kids[1], fl_arr) and may_flow_from(sc, cond.kids[1], fl_cnt)
+                if ok_start and ok_step and ok_end:
+                    ptr_form = True
+                else:
+                    bad = bad or "the slot loop `%s` does not cover hazard_pointers[0 .. hazard_pointers_count) of the record" % cond.text
         if cond is None:
             bad = bad or "slot loop not found"
-        else:
+        elif not ptr_form and not bad:
             rk = sc.key(cond.kids[1], resolve=True)
             if not (cond.op == "<" and is_field(rk, R, "hazard_pointers_count") and rk[3] == ("*", ("var", sc.local_by_did[cur[0]]["name"], cur[0]))):
                 bad = bad or "the slot loop is bounded by `%s`, not by i < cur_record->hazard_pointers_count" % cond.text
@@ -157,7 +227,7 @@ def run(ctx):
             if sc.guarded(pst[0].node, lambda leaf, pol: strip(leaf).k == "DeclRefExpr" and strip(leaf).did == hv.did and pol is True) is not None:
                 bad = bad or "NULL slots are copied / the copy is not guarded by the slot value"
             hk2 = sc.key(hv, resolve=True)
-            if hk2[0] != "[]":
+            if hk2[0] != "[]" and not may_flow_from(sc, pst[0].value, isslot_cover):
                 bad = bad or "the value copied is not a slot of the record"
     o.check(bad is None, "record walk + slot loop", bad, site=sc.loc, construct="scan coverage")
 
@@ -166,8 +236,8 @@ def run(ctx):
                "without a fence the scan's reads of the hazard slots can be satisfied before that store is visible, a reader validates the node against the "
                "old link and publishes it, the scan sees the slot still empty -- and reclaims a protected node")
     full = is_full_fence(sc)
-    slot_reads = [n for n in sc.nodes if n.k == "ImplicitCastExpr" and n.ck == "LValueToRValue" and strip(n) is not None and strip(n).k == "ArraySubscriptExpr"
-                  and key_mentions(sc.key(strip(n).kids[0], True), lambda x: x[0] == "f" and x[1] == R and x[2] == "hazard_pointers")]
+    isslot = slot_read_pred(sc)
+    slot_reads = [n for n in sc.nodes if isslot(n)]
     if not slot_reads:
         raise AnalysisBroken("hazard_pointer_scan: reads of the hazard slots not found")
     w = None
@@ -215,7 +285,7 @@ def run(ctx):
         for b in bs:
             if sc.dominated_by(b, nodeset(qs)) is not None:
                 bad = bad or "binary_search is reachable before the sort"
-            if sc.key(sc.args(b)[1], True) != sc.key(sc.args(qs[0])[1], True):
+            if sc.key(through_struct(P, sc, sc.args(b)[1]), True) != sc.key(through_struct(P, sc, sc.args(qs[0])[1]), True):
                 bad = bad or "sorted length and searched length differ"
         cmpf = strip(sc.args(qs[0])[3])
         cname = None
@@ -293,6 +363,7 @@ def run(ctx):
     for b in searches:
         a = sc.args(b)
         arr_len = a[:2] if b.callee == "binary_search" else a[1:3]
+        arr_len = [through_struct(P, sc, x) for x in arr_len]
         for x in arr_len:
             def rewritten_after_cb(n):
                 if not (n.k == "ImplicitCastExpr" and n.ck == "LValueToRValue"):
@@ -319,8 +390,8 @@ def run(ctx):
             for c in cbs:
                 if sc.find_path(n, lambda y, c=c: y is c, barrier=resets) is not None:
                     bad = bad or ("the searched array is the one the record's `%s` still points to while the reclamation callbacks run: a nested scan refills "
-                                  "that very memory under the outer scan (and both later free it)" % fld, b)
-    o.check(bad is None, "%d search call(s), %d callback site(s); scan rewrites record fields %s" % (len(searches), len(cbs), sorted(written)),
+                                  "that very memory under the outer scan (and both later free it)" % fld[1], b)
+    o.check(bad is None, "%d search call(s), %d callback site(s); scan rewrites record fields %s" % (len(searches), len(cbs), sorted(x[1] for x in written)),
             bad[0] if bad else None, site=bad[1] if bad else None, construct="scan snapshot shared with a nested scan")
 
     o = ctx.ob("scan.decide", sc, "a retired node is passed to its gc function exactly when the search did not find it; otherwise it is re-linked into the "
